@@ -222,8 +222,10 @@ func runC18(c *Ctx) {
 		fe := c.Facts(eb)
 		for _, rs := range fe.AllReturns() {
 			t := fe.tr.term(rs.State, rs.Ret.Results[0], 0)
-			ok := (t == "false" && rs.State.lits["!sense.osLookupEnv(string#0)#1"]) || t == "sense.boolString(sense.osLookupEnv(string#0)#0, false, true)"
-			c.Ob("C18-R2", "sense.EnvBool: false when unset, otherwise boolString(value, unset=false, unparsable=true)", c.Position(rs.Ret.Pos()), ok, "returns "+t)
+			// a constant false can never opt in, whatever the path; the only other result is the parsed value with the
+			// empty string mapped to false
+			ok := t == "false" || t == "sense.boolString(sense.osLookupEnv(string#0)#0, false, true)"
+			c.Ob("C18-R2", "sense.EnvBool returns false or boolString(value, unset=false, unparsable=true)", c.Position(rs.Ret.Pos()), ok, "returns "+t)
 		}
 		bs := c.Fn("common/sense:boolString")
 		fb := c.Facts(bs)
